@@ -11,6 +11,7 @@ G6  read-set of every public accessor vs the accessor table; compound accessors 
 G7  plain accessors have no panic edge at all
 """
 from .. import an
+from .. import select as SEL
 from .. import chain as CH
 from .. import guard as G
 from .. import layout as L
@@ -101,91 +102,97 @@ def run(ctx):
     if gt is None:
         ctx.fail("ANCHOR", "get_tag", "BootInformation::get_tag exists", "", "missing")
     else:
-        rt, _ = an.of(F, gt).ret()
-        n = N(rt) if rt is not None else None
+        sel, why = SEL.analyse(F, gt)
         ok = False
-        why = G.show(rt)[:300]
-        if n is not None and n[0] == "call" and cn(n[1]) == "core::option::Option::map":
-            fnd, mapc = n[2]
-            if fnd[0] == "call" and "Iterator>::find" in str(fnd[1]) and "TagIter<" in str(fnd[1]):
-                itarg, fc = fnd[2]
-                fresh = ("ref", ("aggr", ("adt", "multiboot2_common::iter::TagIter", "TagIter", ("next_tag_offset", "buffer", "_t")),
-                                 (("c", 0), ("ref", fld(deref(fld(deref(arg(1)), 0)), 1)), ("aggr", ("adt", "core::marker::PhantomData", "PhantomData", ()), ()))))
-                it_ok = itarg == fresh
-                pred = poly_closure_ret(F, fc)
-                mp = poly_closure_ret(F, mapc)
-                pred_ok = False
-                if pred is not None and pred[0] == "bin" and pred[1] == "Eq":
-                    sides = (pred[2], pred[3])
-                    c = [x for x in sides if x[0] == "call" and x[1] == T2 and x[2][0][0] == "deref" and x[2][0][1][0] == "cs" and "promoted" in x[2][0][1][1]]
-                    tf = [x for x in sides if x == fld(fld(fld(deref(deref(arg(2))), 0), 0), 0)]
-                    pred_ok = len(c) == 1 and len(tf) == 1
-                map_ok = mp is not None and mp[0] == "call" and cn(mp[1]) == "multiboot2_common::DynSizedStructure::cast" and mp[1].endswith("::cast::<T>") and mp[2] == (arg(2),)
-                ok = it_ok and pred_ok and map_ok
-                why = "fresh tags() iterator=%s numeric predicate=%s cast::<T>=%s" % (it_ok, pred_ok, map_ok)
+        if sel is not None:
+            payload = fld(deref(fld(deref(arg(1)), 0)), 1)
+            it = SEL.canon_place(SEL.unref(sel["iter"]))
+            it_ok = it[0] == "aggr" and it[1][:3] == ("adt", "multiboot2_common::iter::TagIter", "TagIter") and it[2][0] == ("c", 0) and \
+                SEL.canon_place(SEL.unref(it[2][1])) == SEL.canon_place(payload)
+            typ0 = fld(fld(fld(deref(SEL.ELEM), 0), 0), 0)          # tag.header().typ.0
+            typ = fld(fld(deref(SEL.ELEM), 0), 0)                    # tag.header().typ
+            sides = SEL.eq_sides(sel["pred"])
+            pred_ok = False
+            if sides is not None:
+                a, b_, via = sides
+                for (x, y) in ((a, b_), (b_, a)):
+                    x, y = SEL.canon_place(x), SEL.canon_place(y)
+                    # numeric form: u32::from(T::ID) == typ.0 ; trait form: <TagTypeId as PartialEq<TagType>>::eq(&typ, &T::ID) (numeric by C20)
+                    is_id = (x[0] == "call" and x[1] == T2 and SEL.unref(x[2][0])[0] == "cs" and "promoted" in SEL.unref(x[2][0])[1]) if via is None else \
+                        (SEL.unref(x)[0] == "cs" and "promoted" in SEL.unref(x)[1])
+                    is_typ = (y == typ0) if via is None else (SEL.unref(y) == typ and "PartialEq<multiboot2::tag_type::TagType>" in str(via) and "TagTypeId" in str(via))
+                    if is_id and is_typ:
+                        pred_ok = True
+            map_ok = SEL.is_cast_of_elem(sel["map"], poly=True)
+            ok = it_ok and pred_ok and map_ok
+            why = "form %s: fresh tags() iterator=%s numeric predicate=%s cast::<T>=%s" % (sel["form"], it_ok, pred_ok, map_ok)
         ctx.check(ok, "G2", "get_tag", "get_tag::<T>() = tags().find(|t| u32::from(T::ID) == t.typ.0).map(|t| t.cast::<T>()) for every T (first match in walk order by Iterator::find)",
                   gt.get("span", ""), how=why, why=why)
         # the promoted constant in the predicate is T::ID: per instantiation the mono closure compares with the kind's variant
         n_cl = 0
         for kind, a in adts.items():
-            ck = "%sget_tag::<%s>::{closure#0}" % (BI, a["path"])
-            c = F.insts.get(ck)
-            if c is None:
+            gi = F.insts.get("%sget_tag::<%s>" % (BI, a["path"]))
+            if gi is None:
                 continue
-            rt, _ = an.of(F, c).ret()
-            m = N(rt) if rt is not None else None
-            good = m is not None and m[0] == "bin" and m[1] == "Eq" and any(x[0] == "call" and x[1] == T2 and x[2][0][0] == "cs" and x[2][0][2] == kind for x in (m[2], m[3]))
+            si, why_i = SEL.analyse(F, gi)
+            good = False
+            how = why_i
+            if si is not None:
+                sides = SEL.eq_sides(si["pred"])
+                how = G.show(si["pred"])[:160]
+                if sides is not None and sides[2] is None:
+                    good = any(x[0] == "call" and x[1] == T2 and SEL.unref(x[2][0])[0] == "cs" and SEL.unref(x[2][0])[2] == kind for x in sides[:2]) and \
+                        any(SEL.canon_place(x) == fld(fld(fld(deref(SEL.ELEM), 0), 0), 0) for x in sides[:2]) and \
+                        SEL.is_cast_of_elem(si["map"], ty_suffix=a["path"].split("::")[-1])
             n_cl += 1
-            ctx.check(good, "G2", "get_tag<%s>:predicate" % a["name"], "get_tag::<%s> compares the stored type with the number of `%s`" % (a["name"], kind), c.get("span", ""),
-                      how=G.show(rt)[:120], why=G.show(rt)[:200])
+            ctx.check(good, "G2", "get_tag<%s>:predicate" % a["name"], "get_tag::<%s> compares the stored type with the number of `%s` and casts the match to %s" % (a["name"], kind, a["name"]),
+                      gi.get("span", ""), how=how, why=str(how)[:300])
         ctx.floor("G2", "instantiated get_tag predicates", n_cl, 20)
     # ---------------------------------------------------------------- G3
     em = F.insts.get(BI + "efi_memory_map_tag")
     if em is None:
         ctx.fail("ANCHOR", "efi_memory_map_tag", "exists", "", "missing")
     else:
-        rt, _ = an.of(F, em).ret()
-        n = N(rt) if rt is not None else None
-        ok = False
-        if n is not None and n[0] == "call" and cn(n[1]) == "core::option::Option::map_or_else":
-            src, c_none, c_some = n[2]
-            bs = L.adt(F, "multiboot2", S.MBI_TAGS["EfiBs"]["ty"])
-            mm = L.adt(F, "multiboot2", S.MBI_TAGS["EfiMmap"]["ty"])
-            src_ok = src == ("call", "%sget_tag::<%s>" % (BI, bs["path"]), (arg(1),))
-            ci, cs_ = closure_inst(F, c_none), closure_inst(F, c_some)
-            r_none = N(an.of(F, ci).ret()[0]) if ci else None
-            r_some = N(an.of(F, cs_).ret()[0]) if cs_ else None
-            none_ok = r_none == ("call", "%sget_tag::<%s>" % (BI, mm["path"]), (fld(arg(1), 0),)) and c_none[2] == (arg(1),)
-            some_ok = r_some == ("aggr", ("adt", "core::option::Option", "None", ()), ())
-            ok = src_ok and none_ok and some_ok
+        bs = L.adt(F, "multiboot2", S.MBI_TAGS["EfiBs"]["ty"])
+        mm = L.adt(F, "multiboot2", S.MBI_TAGS["EfiMmap"]["ty"])
+        BS = ("call", "%sget_tag::<%s>" % (BI, bs["path"]), (arg(1),))
+        MMc = ("call", "%sget_tag::<%s>" % (BI, mm["path"]), (arg(1),))
+        A_em = an.of(F, em)
+        ex = CH.exits(A_em)
+        tails = [e for e in ex if e.kind not in ("None", "Some")]
+        nones = [e for e in ex if e.kind == "None"]
+        somes = [e for e in ex if e.kind == "Some"]
+        tail_ok = len(tails) == 1 and SEL.canon_place(N(tails[0].val)) == MMc and CH.own_is_variant(tails[0], BS, 0)
+        none_ok = bool(nones) and all(CH.guarded_by_variant(e.facts, BS, 1) for e in nones)
+        ok = tail_ok and none_ok and not somes
+        rt = None
+        why_g3 = "exits: %d tail (get_tag::<EFIMemoryMapTag>() under `not-exited tag absent`: %s), %d None (all under `tag present`: %s), %d Some" % (
+            len(tails), tail_ok, len(nones), none_ok, len(somes))
         ctx.check(ok, "G3", "efi_memory_map_tag", "efi_memory_map_tag() = get_tag::<EFIBootServicesNotExitedTag>().map_or_else(|| get_tag::<EFIMemoryMapTag>(), |_| None): "
-                  "the map is withheld while boot services are not exited", em.get("span", ""), how=G.show(rt)[:200], why=G.show(rt)[:400])
+                  "the map is withheld while boot services are not exited", em.get("span", ""), how=why_g3, why=why_g3)
     # ---------------------------------------------------------------- G4
     fb = F.insts.get(BI + "framebuffer_tag")
     fbt = adts.get("Framebuffer")
     if fb is None or fbt is None:
         ctx.fail("ANCHOR", "framebuffer_tag", "exists", "", "missing")
     else:
-        rt, _ = an.of(F, fb).ret()
-        n = N(rt) if rt is not None else None
-        ok = False
-        why = G.show(rt)[:300]
-        if n is not None and n[0] == "call" and cn(n[1]) == "core::option::Option::map":
-            src, clo = n[2]
-            src_ok = src == ("call", "%sget_tag::<%s>" % (BI, fbt["path"]), (arg(1),))
-            ci = closure_inst(F, clo)
-            ex_ok = False
-            if ci:
-                ex = CH.exits(an.of(F, ci))
-                bt = ("call", "multiboot2::framebuffer::FramebufferTag::buffer_type", (arg(2),))
-                oks = [e for e in ex if e.kind == "Ok"]
-                ers = [e for e in ex if e.kind == "Err"]
-                if len(oks) == 1 and len(ers) == 1:
-                    o_ok = N(oks[0].payload) == arg(2) and [N(f) for f in oks[0].own] == [("cmp", "Eq", ("discr", bt), ("c", 0))]
-                    e_ok = N(ers[0].payload) == fld(("dc", bt, 1), 0) and [N(f) for f in ers[0].own] == [("cmp", "Eq", ("discr", bt), ("c", 1))]
-                    ex_ok = o_ok and e_ok
-            ok = src_ok and ex_ok
-            why = "source get_tag::<FramebufferTag>=%s; closure = match buffer_type() {Ok(_) => Ok(tag), Err(e) => Err(e)}: %s" % (src_ok, ex_ok)
+        FT = ("call", "%sget_tag::<%s>" % (BI, fbt["path"]), (arg(1),))
+        tag = CH.payload_of(FT, 1)
+        BT = ("call", "multiboot2::framebuffer::FramebufferTag::buffer_type", (tag,))
+        ex = CH.exits(an.of(F, fb))
+        nones = [e for e in ex if e.kind == "None"]
+        s_err = [e for e in ex if e.kind == "Some" and e.variant == "Err"]
+        s_ok = [e for e in ex if e.kind == "Some" and e.variant == "Ok"]
+        ok = len(ex) == 3 and len(nones) == 1 and len(s_err) == 1 and len(s_ok) == 1
+        why = "exits %s" % [(e.kind, e.variant) for e in ex]
+        if ok:
+            n_ok = CH.own_is_variant(nones[0], FT, 0)
+            e_ok = CH.own_is_variant(s_err[0], BT, 1) and CH.guarded_by_variant(s_err[0].facts, FT, 1) and \
+                SEL.canon_place(N(s_err[0].payload)) == ("aggr", ("adt", "core::result::Result", "Err", ("0",)), (CH.payload_of(BT, 1),))
+            o_ok = CH.own_is_variant(s_ok[0], BT, 0) and CH.guarded_by_variant(s_ok[0].facts, FT, 1) and \
+                SEL.canon_place(N(s_ok[0].payload)) == ("aggr", ("adt", "core::result::Result", "Ok", ("0",)), (tag,))
+            ok = n_ok and e_ok and o_ok
+            why = "None iff get_tag::<FramebufferTag>() is None: %s; Some(Err(e)) iff buffer_type() = Err(e): %s; Some(Ok(tag)) iff buffer_type() is Ok: %s" % (n_ok, e_ok, o_ok)
         ctx.check(ok, "G4", "framebuffer_tag", "framebuffer_tag() maps the found tag to Ok(tag) iff buffer_type() is Ok, else to Err carrying buffer_type()'s error", fb.get("span", ""), how=why, why=why)
     buffer_type(ctx, F, fbt)
     # ---------------------------------------------------------------- G7
@@ -276,7 +283,7 @@ def rsdp_checksum(F, inst, slen, v2, a):
     A = an.of(F, inst)
     rt, _ = A.ret()
     n = N(rt) if rt is not None else None
-    if n is None:
+    if n is None and not v2:
         return False, "no single return term"
 
     def fold_ok(t, src_pred):
@@ -301,29 +308,35 @@ def rsdp_checksum(F, inst, slen, v2, a):
             return x == ("call", "core::slice::index::<impl core::ops::index::Index<core::ops::range::RangeFrom<usize>> for [u8]>::index",
                          (whole, ("aggr", ("adt", "core::ops::range::RangeFrom", "RangeFrom", ("start",)), (("c", 8),))))
         return fold_ok(n, src), str(n)[:200]
-    # v2: bytes.get(8..).and_then(|r| r.get(..length)).map(|r| fold == 0).unwrap_or(false)
-    if not (n[0] == "call" and cn(n[1]) == "core::option::Option::unwrap_or" and n[2][1] == ("c", 0)):
-        return False, str(n)[:200]
-    m = n[2][0]
-    if not (m[0] == "call" and cn(m[1]) == "core::option::Option::map"):
-        return False, str(m)[:200]
-    at, mclo = m[2]
-    if not (at[0] == "call" and cn(at[1]) == "core::option::Option::and_then"):
-        return False, str(at)[:200]
-    g8, aclo = at[2]
-    g8_ok = g8 == ("call", "core::slice::<impl [u8]>::get::<core::ops::range::RangeFrom<usize>>", (whole, ("aggr", ("adt", "core::ops::range::RangeFrom", "RangeFrom", ("start",)), (("c", 8),))))
+    # v2: false unless bytes.get(8..) and then .get(..length) both succeed; then (sum == 0)
+    ex = CH.exits(A)
+    G8 = ("call", "core::slice::<impl [u8]>::get::<core::ops::range::RangeFrom<usize>>", (whole, ("aggr", ("adt", "core::ops::range::RangeFrom", "RangeFrom", ("start",)), (("c", 8),))))
     length_i = [f["i"] for f in a["fields"] if f["off"] == 28 and f["size"] == 4][0]
-    ac = [c for k, c in F.insts.items() if c.get("path") == aclo[1][1]]
-    mc = [c for k, c in F.insts.items() if c.get("path") == mclo[1][1]]
-    if len(ac) != 1 or len(mc) != 1:
-        return False, "closures not found"
-    ar = N(an.of(F, ac[0]).ret()[0])
-    # captured self: closure env field 0 -> &&RsdpV2Tag
-    a_ok = ar[0] == "call" and cn(ar[1]) == "core::slice::get" and ar[2][0] == arg(2) and ar[2][1][0] == "aggr" and ar[2][1][1][1] == "core::ops::range::RangeTo" and \
-        ar[2][1][2][0][0] == "fld" and ar[2][1][2][0][2] == length_i
-    mr = N(an.of(F, mc[0]).ret()[0])
-    m_ok = fold_ok(mr, lambda x: x == arg(2))
-    return g8_ok and a_ok and m_ok, "get(8..)=%s and_then get(..length)=%s map(sum==0)=%s" % (g8_ok, a_ok, m_ok)
+    ln = fld(deref(arg(1)), length_i)
+    G2 = ("call", "core::slice::<impl [u8]>::get::<core::ops::range::RangeTo<usize>>", (CH.payload_of(G8, 1), ("aggr", ("adt", "core::ops::range::RangeTo", "RangeTo", ("end",)), (ln,))))
+    falses = [e for e in ex if N(e.val) == ("c", 0)]
+    sums = [e for e in ex if N(e.val) != ("c", 0)]
+    f_ok = len(falses) == 2 and any(CH.own_is_variant(e, G8, 0) for e in falses) and \
+        any(CH.own_is_variant(e, SEL.canon_place(G2), 0) or CH.own_is_variant(e, G2, 0) for e in falses)
+    s_ok = False
+    if len(sums) == 1:
+        e = sums[0]
+        under = (CH.guarded_by_variant(e.facts, G2, 1) or CH.guarded_by_variant([SEL.canon_place(N(f)) for f in e.facts], SEL.canon_place(G2), 1)) and CH.guarded_by_variant(e.facts, G8, 1)
+        v = SEL.canon_place(N(e.val))
+        s_ok = under and fold_ok(v, lambda x: SEL.canon_place(x) == SEL.canon_place(CH.payload_of(G2, 1)))
+    return f_ok and s_ok and len(ex) == 3, "false when get(8..) or get(..length) is None: %s; otherwise wrapping byte sum over exactly those bytes == 0: %s (%d exits)" % (f_ok, s_ok, len(ex))
+
+
+def is_elem_read(n, buf, idx):
+    """n reads buf[idx] with a bounds check that panics: *buf.get(idx).unwrap() (also via copied()/cloned()) or buf[idx]"""
+    n = SEL.canon_place(n)
+    buf, idx = SEL.canon_place(buf), SEL.canon_place(idx)
+    if n[0] == "deref" and n[1][0] == "unwrap" and n[1][1][0] == "call" and cn(n[1][1][1]) == "core::slice::get":
+        a = n[1][1][2]
+        return SEL.canon_place(a[0]) == buf and SEL.canon_place(a[1]) == idx
+    if n[0] == "idx":
+        return SEL.unref(n[1]) == SEL.unref(buf) and n[2] == idx
+    return False
 
 
 def buffer_type(ctx, F, fbt):
@@ -351,8 +364,9 @@ def buffer_type(ctx, F, fbt):
               i[0].get("span", ""), how="try_from(self.<u8 field @29>)", why="argument of try_from is not the raw byte field")
     # error propagation: `?` on try_from
     ex = CH.exits(A)
-    errs = [e for e in ex if N(e.val)[0] == "try_err"]
-    ctx.check(len(errs) == 1 and cn(N(errs[0].val)[1][1]).endswith("TryFrom>::try_from") or (len(errs) == 1 and "try_from" in str(N(errs[0].val)[1][1])), "G4", "buffer_type:error",
+    errs = [e for e in ex if e.kind == "Err"]
+    TF = ("call", "<multiboot2::framebuffer::FramebufferTypeId as core::convert::TryFrom<u8>>::try_from", (fld(me, tfield[0]),)) if tfield else None
+    ctx.check(TF is not None and len(errs) == 1 and N(errs[0].payload) == CH.payload_of(TF, 1) and CH.own_is_variant(errs[0], TF, 1), "G4", "buffer_type:error",
               "the only error exit of buffer_type() is the `?` on that try_from (the unknown byte is carried unchanged)", i[0].get("span", ""),
               how="one try_err exit", why=str([G.show(e.val)[:100] for e in ex]))
     # Reader over the tail
@@ -373,8 +387,7 @@ def buffer_type(ctx, F, fbt):
         rt, _ = R.ret()
         n = N(rt) if rt is not None else None
         rself = deref(arg(1))
-        ok8 = n is not None and n[0] == "unwrap" and n[1][0] == "call" and str(n[1][1]).endswith("::cloned") and n[1][2][0][0] == "call" and cn(n[1][2][0][1]) == "core::slice::get" and \
-            n[1][2][0][2] == (fld(rself, 0), fld(rself, 1))
+        ok8 = n is not None and is_elem_read(n, fld(rself, 0), fld(rself, 1))
         w = []
         for bb in sorted(R.body.reachable):
             for si, st in enumerate(R.body.stmts(bb)):
